@@ -101,46 +101,7 @@ func checkC11(w *World, r *Report) {
 	})
 
 	r.Rule("R11.12", "a node's position is only ever applied to the text it was taken from: node.useTree — the tree of the module a node was copied into by `uses` — is read by UsesRoot alone (and set by Clone); error locations pair node.pos with node.tree. A position into the defining module's text applied to the using module's text slices out of range, and that run-time error is re-raised by Compiler.recover", 2)
-	r.guard("R11.12", func() {
-		useTree := w.Field("parse", "node", "useTree")
-		readers, writers := map[string]bool{}, map[string]bool{}
-		for _, f := range allFuncs(w.SSAPkg("parse")) {
-			if isTestFile(w, f.Pos()) {
-				continue
-			}
-			for _, b := range f.Blocks {
-				for _, in := range b.Instrs {
-					fa, ok := in.(*ssa.FieldAddr)
-					if !ok || !isFieldAddrOf(fa, useTree) {
-						continue
-					}
-					for _, ref := range *fa.Referrers() {
-						switch x := ref.(type) {
-						case *ssa.Store:
-							if x.Addr == ssa.Value(fa) {
-								writers[nm(w.OwnerChain(f)[len(w.OwnerChain(f))-1])] = true
-								continue
-							}
-							readers[funcKey(f)] = true
-						default:
-							readers[nm(w.OwnerChain(f)[len(w.OwnerChain(f))-1])] = true
-						}
-					}
-				}
-			}
-		}
-		var rs, ws []string
-		for k := range readers {
-			rs = append(rs, k)
-		}
-		for k := range writers {
-			ws = append(ws, k)
-		}
-		sort.Strings(rs)
-		sort.Strings(ws)
-		r.Check(strings.Join(rs, ",") == "UsesRoot", "R11.12", "readers of node.useTree", token.NoPos, strings.Join(rs, ","), "node.useTree is read by {"+strings.Join(rs, ",")+"}, not by UsesRoot alone: something other than re-homing of references depends on the using module — e.g. an error location built from the using module's text and the defining module's offset")
-		r.Check(strings.Join(ws, ",") == "Clone", "R11.12", "writers of node.useTree", token.NoPos, strings.Join(ws, ","), "node.useTree is written by {"+strings.Join(ws, ",")+"}, not by Clone alone")
-	})
+	r.guard("R11.12", func() { c11UseTreeReaders(w, r, "R11.12") })
 
 	r.Rule("R11.9", "the outcome does not depend on what was compiled or parsed before: package-level state of parse/, compile/, schema/ and data/ is never written after initialisation (no memo, pool or table filled at run time), apart from the reviewed debug switch and built-in type environment", 2)
 	r.guard("R11.9", func() {
@@ -920,4 +881,46 @@ func ssaCycleGuard(w *World, f *ssa.Function, isRec func(*ssa.Call) bool) cycleG
 		}
 	}
 	return g
+}
+
+// c11UseTreeReaders (R11.12 / R15.14): node.useTree is read by UsesRoot alone and written by Clone alone.
+func c11UseTreeReaders(w *World, r *Report, rule string) {
+	useTree := w.Field("parse", "node", "useTree")
+	readers, writers := map[string]bool{}, map[string]bool{}
+	for _, f := range allFuncs(w.SSAPkg("parse")) {
+		if isTestFile(w, f.Pos()) {
+			continue
+		}
+		for _, b := range f.Blocks {
+			for _, in := range b.Instrs {
+				fa, ok := in.(*ssa.FieldAddr)
+				if !ok || !isFieldAddrOf(fa, useTree) {
+					continue
+				}
+				for _, ref := range *fa.Referrers() {
+					switch x := ref.(type) {
+					case *ssa.Store:
+						if x.Addr == ssa.Value(fa) {
+							writers[nm(w.OwnerChain(f)[len(w.OwnerChain(f))-1])] = true
+							continue
+						}
+						readers[funcKey(f)] = true
+					default:
+						readers[nm(w.OwnerChain(f)[len(w.OwnerChain(f))-1])] = true
+					}
+				}
+			}
+		}
+	}
+	var rs, ws []string
+	for k := range readers {
+		rs = append(rs, k)
+	}
+	for k := range writers {
+		ws = append(ws, k)
+	}
+	sort.Strings(rs)
+	sort.Strings(ws)
+	r.Check(strings.Join(rs, ",") == "UsesRoot", rule, "readers of node.useTree", token.NoPos, strings.Join(rs, ","), "node.useTree is read by {"+strings.Join(rs, ",")+"}, not by UsesRoot alone: something other than re-homing of references depends on the using module — e.g. an error location built from the using module's text and the defining module's offset")
+	r.Check(strings.Join(ws, ",") == "Clone", rule, "writers of node.useTree", token.NoPos, strings.Join(ws, ","), "node.useTree is written by {"+strings.Join(ws, ",")+"}, not by Clone alone")
 }
